@@ -174,6 +174,7 @@ Definition plain_ticks (t : term) (p : pst) (ch : Z) : Z :=
                 else 1
     end
   else if ch =? 88 then 1 + Z.max 0 (Z.min (tw t - cx t) (first_or ns 1))                      (* X: erase_charcter clamps *)
+  else if ch =? 116 then match ns with [k; _; w] => if k =? 8 then 1 + zlen (reset_tabs (Z.max (Z.min w 132) 1)) else 1 | _ => 1 end   (* t: the tab table is rebuilt (window_ticks) *)
   else 1.
 
 Definition csi_final_c (t : term) (p : pst) (is_start : bool) (ch : Z) : outcome * cost :=
@@ -322,3 +323,60 @@ Definition glyph_iters (h : N) (data : list N) : Z := zlen (Font.glyphs_from_u8_
 
 (* ---- binary loaders: cells the header asks for, and what the loaders accept (see notes/C03.md: checked by stage S only) ------------------------------------ *)
 Definition xbin_cells (w h : Z) : Z := w * h.          (* XBin: width and height are u16, width 1..=4096 *)
+
+(* ---- CSI .. $ <final> (DECRQPSR w, DECFRA x, DECERA z, DECSERA {) and CSI .. * y (DECRQCRA) ------------------------------------------------------------------------
+   outcome: the arms of AnsiTok.astep_gen for EngineState::ReadCSIEnd('$') verbatim; ticks: 1 + cells of the clipped rectangle (get_rect_area),
+   for DECRQCRA the cells of the requested rectangle, which the command rejects unless it lies inside the text area *)
+Definition dollar_outcome (t : term) (p : pst) (ch : Z) : outcome :=
+  if ch =? 119 then ok t (dflt p)
+  else if ch =? 120 then cmd_fill_rect t p
+  else if ch =? 122 then cmd_erase_rect t p
+  else if ch =? 123 then cmd_sel_erase_rect t p
+  else ok t p.
+Definition dollar_ticks (t : term) (p : pst) (ch : Z) : Z :=
+  if ch =? 120 then match nums p with [c; a; b; cc; d] => if is_scalar c then rect_ticks t a b cc d else 0 | _ => 0 end
+  else if (ch =? 122) || (ch =? 123) then match nums p with [a; b; c; d] => rect_ticks t a b c d | _ => 0 end
+  else 0.
+Definition csi_dollar_c (t : term) (p : pst) (ch : Z) : outcome * cost :=
+  let o := dollar_outcome t p ch in (o, mkCost 1 (1 + dollar_ticks t p ch) (out_grow t o)).
+Definition rqcra_outcome (t : term) (p : pst) : outcome :=
+  match nums p with
+  | [_; _; pt; pl; pb; pr] =>
+    if (pt >? pb) || (pl >? pr) || (pr >? tw t) || (pb >? th t) || (pl <? 0) || (pt <? 0) then err t (dflt p) else ok t (dflt p)
+  | _ => err t (dflt p) end.
+Definition rqcra_ticks (t : term) (p : pst) : Z :=
+  match nums p with
+  | [_; _; pt; pl; pb; pr] =>
+    if (pt >? pb) || (pl >? pr) || (pr >? tw t) || (pb >? th t) || (pl <? 0) || (pt <? 0) then 0 else (pb - pt) * (pr - pl)
+  | _ => 0 end.
+Definition rqcra_c (t : term) (p : pst) : outcome * cost := (rqcra_outcome t p, mkCost 1 (1 + rqcra_ticks t p) 0).
+
+(* ---- extension (c): what the conditional bounds of the hex-macro repeat groups and of the macro replay are conditional ON ------------------------------------------------
+   hex_reps: the largest repeat count of a group that parse_hex_macro_sequence opens in [s] (same state machine as hex_macro_t; [hex_max_rep] above loses the
+   synchronisation at the `;` that closes a group and is kept only for the stage-C output) *)
+Fixpoint hex_reps (s : list Z) (stt : hexst) (rr : bool) (m : Z) : Z :=
+  match s with
+  | [] => m
+  | ch :: r =>
+    match stt with
+    | HFirst => if (ch =? 59) && rr then hex_reps r HFirst false m
+                else if ch =? 33 then hex_reps r (HRepeat 0) rr m
+                else hex_reps r (HSecond ch) rr m
+    | HSecond f => match hex_val f, hex_val (to_upper ch) with
+                   | Some _, Some _ => hex_reps r HFirst rr m
+                   | _, _ => m
+                   end
+    | HRepeat n => if is_digit ch then hex_reps r (HRepeat (parse_next_number n ch)) rr m
+                   else if ch =? 59 then hex_reps r HFirst true (Z.max m n)
+                   else m
+    end
+  end.
+(* 1 + c + c^2 + ... + c^(d-1): macro bodies replayed by one invocation when every body invokes at most c macros and the nesting depth is below d *)
+Fixpoint geom (c : Z) (d : nat) : Z := match d with O => 0 | S k => 1 + c * geom c k end.
+Definition macros_ok (ms : list (Z * list Z)) (B c : Z) : Prop :=
+  forall id body, lookup id ms = Some body -> zlen body <= B /\ zlen (find_invokes body) <= c.
+(* executable versions of B and c for stage C *)
+Definition macros_maxlen (ms : list (Z * list Z)) : Z := fold_right (fun kv a => Z.max (zlen (snd kv)) a) 0 ms.
+Definition macros_maxinv (ms : list (Z * list Z)) : Z := fold_right (fun kv a => Z.max (zlen (find_invokes (snd kv))) a) 0 ms.
+(* the known class of parse_hex_macro_sequence: a repeat count beyond B *)
+Definition KnownC03_hexrep (s : list Z) (B : Z) : Prop := B < hex_reps s HFirst false 0.
